@@ -11,7 +11,7 @@ QUERIES = [
     q("schnorrsig_verify_any_msglen", "harness_schnorr", "schnorrsig_verify with an exact message buffer of every length 0..72 (NULL allowed for length 0)", bounds="msglen 0..72"),
     q("musig_pubnonce", "harness_musig", "musig_pubnonce_parse on an exact 66-byte object; parsed object handed to serialize, nonce_agg, aggnonce_serialize", defs=["MPART=0"]),
     q("musig_aggnonce_psig", "harness_musig", "musig aggnonce_parse / partial_sig_parse on exact 66/32-byte objects; parsed objects handed to serialize, nonce_process (optional adaptor), nonce_parity, partial_sig_agg, partial_sig_verify", defs=["MPART=1"]),
-    q("ecdsa_adaptor_verify_162", "harness_adaptor", "ecdsa_adaptor_verify on arbitrary 162-byte strings", defs=["ADAPT_VERIFY"]),
+    q("ecdsa_adaptor_verify_162", "harness_adaptor", "ecdsa_adaptor_verify on arbitrary 162-byte strings", defs=["ADAPT_VERIFY"], tier="thorough"),   # ~8 min; the same function is decided (non-exact buffer) in C14's quick tier
     q("ecdsa_adaptor_decrypt_162", "harness_adaptor", "ecdsa_adaptor decrypt/recover on arbitrary 162-byte strings"),
     q("ellswift", "harness_ellswift", "ellswift_decode accepts every 64-byte string; ellswift_xdh with arbitrary encodings and a caller hash callback"),
     q("commitment_generator", "harness_commitment", "pedersen_commitment_parse / generator_parse on exact 33-byte objects; parsed objects handed to serialize, verify_tally, commit"),
@@ -19,7 +19,7 @@ QUERIES = [
 ]
 for L in range(0, 81):
     QUERIES.append(q("ecdsa_der_parse_len%02d" % L, "harness_ecdsa_sig", "ecdsa_signature_parse_der on a separate input object of exactly %d bytes (all byte values): no read past the end; parsed signature handed to normalize / serialize" % L,
-                     defs=["DERONLY", "DERLEN=%d" % L], bounds="len = %d" % L, tier="quick" if L <= 8 else "thorough", timeout=900, mem_gb=4))
+                     defs=["DERONLY", "DERLEN=%d" % L], bounds="len = %d" % L, tier="quick" if L <= 5 else "thorough", timeout=900, mem_gb=4))
 for m, tier in ((0, "quick"), (1, "thorough")):     # classes 2, 3, 8: symbolic execution ran out of memory at 12 GB (4 kB pad indexed by value-dependent positions)
     QUERIES.append(Query("rewind_inner_m%d" % m, "C07/h_rewind.c", "harness_rewind_inner", defs=["MANT=%d" % m], unwind=140, timeout=1800, mem_gb=12, tier=tier,
                          desc="rangeproof_rewind_inner, ring layout of mantissa class %d: message copied into a caller buffer of EXACTLY *mlen bytes (every *mlen, NULL buffer / NULL length allowed), indices into s/ev/pad in bounds, reported length <= offered length, for all ring scalars, challenges and re-derived randomness" % m,
